@@ -33,6 +33,10 @@ type Shard struct {
 	metaBaseIface metabase
 
 	metaBaseOpenErr error
+
+	// storageMode is the mode blobStor was switched to the last time,
+	// [mode.Disabled] if the last switch failed.
+	storageMode mode.Mode
 }
 
 // Option represents Shard's constructor option.
